@@ -36,7 +36,9 @@ ASSUMPTIONS = [
 ]
 MIN_NONTRIVIAL_FRACTION = 0.3
 RULE += ' Added after the seeded rounds: Signature pools may contain case twins (two patterns equal up to letter case, with different levels, learnt / forgotten separately); clock gaps up to a day.'
-EXHAUSTIVE_NOTE = {"quick": "every built-in signature/pattern instance (22 membrane + 18 innate) x 4 renderings (plain, upper-cased, embedded, embedded after 300 characters) x every threshold (4 / 5): 680 cases, complete for that table; relaxation table: 5 literal rules x 3 thresholds x 4 ways of relaxing a learnt rule = 60 histories",
+RULE += ' Overlap scenarios: a stronger literal rule whose only occurrence in the input overlaps the match of another rule (shares its start, starts inside it, or ends inside it).'
+RULE += ' Bookkeeping calls between inputs (clear_audit_log, get_statistics, export_antibodies, get_audit_log).'
+EXHAUSTIVE_NOTE = {"quick": "every built-in signature/pattern instance (22 membrane + 18 innate) x 4 renderings (plain, upper-cased, embedded, embedded after 300 characters) x every threshold (4 / 5): 680 cases, complete for that table; relaxation table: 5 literal rules x 3 thresholds x 4 ways of relaxing a learnt rule = 60 histories; overlap table: every multi-word built-in instance x 3 ways a stronger literal rule overlaps it x custom/learnt",
                    "thorough": "same table, complete"}
 
 BENIGN = ["hello", "please", "summarise", "the", "report", "for", "monday", "thanks", "42", "ok"]
@@ -146,6 +148,8 @@ def _membrane_case(draw):
             ops.append(["import", [[draw(st.sampled_from(pool)), draw(st.integers(1, 3))] for _ in range(draw(st.integers(1, 2)))]])
         elif k == 10:
             ops.append(["add_sig", draw(st.sampled_from(pool)), draw(st.integers(1, 3))])
+        elif k == 11 and draw(st.booleans()):
+            ops.append(["maint", draw(st.sampled_from(["clear_audit_log", "get_statistics", "export_antibodies", "get_audit_log"]))])
         elif k == 11:
             ops.append(["threshold", draw(st.integers(0, 3))])
             if draw(st.booleans()):
@@ -159,6 +163,25 @@ def _membrane_case(draw):
         text = draw(st.sampled_from(BENIGN)) + " " + _swap(inst, draw(st.integers(0, 3))) + " " + draw(st.sampled_from(BENIGN))
         relax = draw(st.sampled_from([[["forget", pat]], [["threshold", 3]], [["learn", pat, 1]], [["forget", pat], ["threshold", 3]], [["import", [[pat, 1]]]]]))
         ops = ops[:draw(st.integers(0, 3))] + [["learn", pat, draw(st.integers(2, 3))], ["filter", text]] + relax + [["refilter", 0], ["filter", text]]
+    elif draw(st.integers(0, 6)) == 0:
+        # overlap scenario: a stronger rule whose only occurrence in the input overlaps (shares its start with, or starts inside) the match of
+        # another rule - "system prompt injection" for the built-in "system prompt" and a custom "prompt injection"
+        base = draw(st.sampled_from([m_ for m_ in mem if " " in m_ and m_.replace(" ", "").isalpha()] + LIT))
+        w = draw(st.sampled_from(["override", "injection", "unrestricted", "table"]))
+        kind = draw(st.sampled_from(["tail", "extend", "head"]))
+        lit = {"tail": base.split(" ")[-1] + " " + w, "extend": base + " " + w, "head": w + " " + base.split(" ")[0]}[kind]
+        text = draw(st.sampled_from(BENIGN)) + " " + (w + " " + base if kind == "head" else base + " " + w) + " " + draw(st.sampled_from(BENIGN))
+        pat = [False, lit]
+        how = draw(st.sampled_from(["custom", "learn", "import", "add_sig"]))
+        if base in LIT:
+            ops = [["add_sig", [False, base], draw(st.integers(1, 2))]] + ops[:2]
+        else:
+            ops = ops[:2]
+        if how == "custom":
+            custom = custom + [[pat, 3]]
+        else:
+            ops = ops + [{"learn": ["learn", pat, 3], "import": ["import", [[pat, 3]]], "add_sig": ["add_sig", pat, 3]}[how]]
+        ops = ops + [["threshold", draw(st.sampled_from([3, 3, 2]))], ["filter", _swap(text, draw(st.integers(0, 3)))], ["filter", text]]
     elif draw(st.integers(0, 6)) == 0:
         # twin scenario: two rules whose pattern texts are equal up to letter case carry different levels and are learnt / imported / forgotten separately
         pat = draw(st.sampled_from(pool))
@@ -205,6 +228,12 @@ def strategy(tier):
 
 def enumerate_cases(tier):
     mem, inn = _builtin_instances()
+    for base in [m_ for m_ in mem if " " in m_ and m_.replace(" ", "").isalpha()]:
+        for kind in ("tail", "extend", "head"):
+            lit = {"tail": base.split(" ")[-1] + " override", "extend": base + " override", "head": "override " + base.split(" ")[0]}[kind]
+            text = "please " + ("override " + base if kind == "head" else base + " override") + " ok"
+            yield {"kind": "membrane", "threshold": 3, "adaptive": True, "rate": None, "custom": [[[False, lit], 3]], "ops": [["filter", text]]}
+            yield {"kind": "membrane", "threshold": 3, "adaptive": True, "rate": None, "custom": [], "ops": [["learn", [False, lit], 3], ["filter", text.upper()]]}
     for lit in LIT:
         for thr in (1, 2, 3):
             for relax in ([["forget", [False, lit]]], [["threshold", 3]], [["learn", [False, lit], 1]], [["import", [[[False, lit], 1]]]]):
@@ -310,6 +339,9 @@ def _membrane(case, out, clock, mod):
             if name == "threshold":
                 threshold = op[1]
                 m.set_threshold(lv[threshold])
+                continue
+            if name == "maint":
+                getattr(m, op[1])()              # bookkeeping between inputs: decisions must not depend on it
                 continue
         except Exception as e:
             out.fail("raise:%s:%s" % (type(e).__name__, name), "%s raised %s: %s" % (name, type(e).__name__, e), {"step": i, "op": op})
